@@ -15,8 +15,12 @@ use ructe::Ructe;
 use std::io::BufRead;
 use std::path::PathBuf;
 
+pub fn keep() -> bool {
+    std::env::var_os("RVH_ROOT").is_some()
+}
 pub fn workdir() -> PathBuf {
-    let d = std::env::temp_dir().join(format!("rvh-{}", std::process::id()));
+    let root = std::env::var_os("RVH_ROOT").map(PathBuf::from).unwrap_or_else(std::env::temp_dir);
+    let d = root.join(format!("rvh-{}", std::process::id()));
     let _ = std::fs::remove_dir_all(&d);
     std::fs::create_dir_all(&d).unwrap();
     d
@@ -102,9 +106,14 @@ pub fn run() {
             Ok(g) => println!("##R templates={}", hex(&g)),
             Err(_) => println!("##R templates=MISSING"),
         }
+        println!("##R outdir={}", hex(out.to_str().unwrap().as_bytes()));
         println!("##END");
-        let _ = std::fs::remove_dir_all(&base);
-        let _ = std::fs::remove_dir_all(&out);
+        if !keep() {
+            let _ = std::fs::remove_dir_all(&base);
+            let _ = std::fs::remove_dir_all(&out);
+        }
     }
-    let _ = std::fs::remove_dir_all(&work);
+    if !keep() {
+        let _ = std::fs::remove_dir_all(&work);
+    }
 }
